@@ -59,12 +59,26 @@ pub fn one_net(b: u64, spec: &NetSpec, lookups: bool) -> Value {
     // every node looks a random target up: which servers did it query
     let mut lks = vec![];
     if lookups {
+        // every node first looks the late joiner up BY ITS ID (the way one finds a particular server) - before it has had any
+        // other occasion to hear of it: the joiner must be queried like any other server
+        if let Some(late_id) = net.sim.snapshot(late).map(|s| id_of_hex(&s.id)) {
+            for (i, &n) in all.iter().enumerate() {
+                if n == late {
+                    continue;
+                }
+                let kind = if i % 2 == 0 { GetKind::FindNode } else { GetKind::Immutable };
+                let (call, log0) = do_lookup(&mut net, n, kind, late_id, "by_id");
+                let tr = lookup_trace(&net.sim, n, &late_id, log0, call.done_ns().unwrap_or(net.sim.now_ns()));
+                lks.push(json!({"n":n,"done":call.done(),"queried":tr.queried.iter().map(|a| a.to_string()).collect::<Vec<_>>(),"by_id":true}));
+            }
+        }
         for &n in &all {
             let target = rng.id();
             let (call, log0) = do_lookup(&mut net, n, GetKind::Immutable, target, "l");
             let tr = lookup_trace(&net.sim, n, &target, log0, call.done_ns().unwrap_or(net.sim.now_ns()));
             lks.push(json!({"n":n,"done":call.done(),"queried":tr.queried.iter().map(|a| a.to_string()).collect::<Vec<_>>()}));
         }
+
     }
     // the tables again once every node has used the network (its lookup collected address votes: on public plans this is
     // where a node confirms its address and re-keys) - the network must STAY connected
